@@ -256,3 +256,23 @@ def r6(ctx):
     ds = [t for t in b.calls(r'edit::distances$')]
     ok = len(ds) == 1 and match(core(sym(b, ds[0].args[3])), Const(0)) and match(core(sym(b, ds[0].args[4])), Const(0))
     ctx.require(ok, b, 'distance-kind', 'distances are plain edit distances (no swaps, no whitespace restriction)', None)
+
+
+@rule('C20', 'R-C20-7', 'T15 TYPE (distances are compared as floats)',
+      'get_closest never converts a distance to an integer: a normalised distance lies in [0, 1] and truncates to 0, which makes '
+      'every entry tie')
+def r7(ctx):
+    from rules.common import closures_in
+    b = ctx.body(D + 'get_closest')
+    n = 0
+    for x in [b] + closures_in(ctx, b):
+        for s in x.stmts():
+            if s.kind == 'assign' and s.rv.kind == 'cast':
+                n += 1
+                ck = str(s.rv.raw.get('cast', s.rv.raw.get('ck', ''))) if hasattr(s.rv, 'raw') else ''
+                src_ty = x.local_ty(s.rv.ops[0].place.local) if s.rv.ops and s.rv.ops[0].place is not None else ''
+                dst_ty = x.local_ty(s.lhs.local) if not s.lhs.proj else ''
+                if ('FloatToInt' in ck) or (src_ty in ('f64', 'f32') and re.match(r'^[ui](8|16|32|64|128|size)$', dst_ty or '')):
+                    ctx.fail(x, 'float-to-int', 'a float (%s) is truncated to %s at line %d in get_closest: distances that differ only by a fraction compare equal' % (
+                        src_ty, dst_ty, s.span['line']), s.span)
+    ctx.ok(b, 'get_closest: %d casts inspected, none truncates a float' % n)
